@@ -129,6 +129,27 @@ package sql
 //@   loop 1 invariant status: (success ==> ghost.reported_failed == old(ghost.reported_failed) && (retry.numRetries > 0 ==> ghost.reported_done)) && (!success ==> ghost.reported_done == old(ghost.reported_done) && (retry.numRetries > 0 ==> ghost.reported_failed))
 //@   loop 1 decreases 5 - retry.numRetries
 
+// The end of an EXPLICIT local transaction: when Commit / Rollback return, database/sql treats the
+// transaction as finished whatever the outcome; a pinned connection (sql.Conn) is not handed back to
+// the pool, so nothing resets the proxy's state: the proxy itself has to be in autocommit mode again,
+// or the next autocommit statement of a global transaction on this connection gets no local
+// transaction, no registration and no undo log.
+//@ func (*ATTx).Commit
+//@   prop C02
+//@   inline
+//@   requires forall(i, 0, len(txHooks), txHooks[i] != nil)
+//@   requires tx != nil && tx.tx != nil && tx.tx.tranCtx != nil && tx.tx.tranCtx.RoundImages != nil && tx.tx.conn != nil && tx.tx.target != nil
+//@   requires ghost.dtx == 1 && ghost.registers == 0 && ghost.flushes == 0 && ghost.reports == 0 && !ghost.reported_failed && !ghost.reported_done && !ghost.report_acked && tx.tx.tranCtx.BranchID == 0
+//@   modifies heap.all, ghost.all
+//@   ensures connection-leaves-the-transaction: tx.tx.conn.autoCommit
+//@ func (*ATTx).Rollback
+//@   prop C02
+//@   inline
+//@   requires forall(i, 0, len(txHooks), txHooks[i] != nil)
+//@   requires tx != nil && tx.tx != nil && tx.tx.tranCtx != nil && tx.tx.conn != nil && tx.tx.target != nil
+//@   modifies heap.all, ghost.all
+//@   ensures connection-leaves-the-transaction: tx.tx.conn.autoCommit
+
 //@ func (*ATTx).commitOnAT
 //@   prop C02
 //@   requires forall(i, 0, len(txHooks), txHooks[i] != nil)
